@@ -1201,7 +1201,13 @@ class NumpyModel:
 
     def np_isclose(self, a, b, rtol=1e-05, atol=1e-08, **kw):
         rt, at = cell(rtol), cell(atol)
-        return vec2(lambda x, y: self.I.compare1(_OPS["LtE"], alg.Abs(x - y), at + rt * alg.Abs(y)), a, b)
+        equal_nan = bool(kw.get("equal_nan", False))
+
+        def one(x, y):
+            if x == NAN or y == NAN:
+                return equal_nan and x == NAN and y == NAN     # IEEE: NaN is close to nothing, unless equal_nan and both are NaN
+            return self.I.compare1(_OPS["LtE"], alg.Abs(x - y), at + rt * alg.Abs(y))
+        return vec2(one, a, b)
 
     def np_allclose(self, a, b, rtol=1e-05, atol=1e-08, **kw):
         r = self.np_isclose(a, b, rtol, atol)
